@@ -175,9 +175,12 @@ class FakePublisher(object):
                       .append(Envelope(data, env[0], env[1]))
             fan += 1
         wire = ru.as_string(from_msgpack(to_msgpack(msg)))
+        isreq = isinstance(wire, dict) and wire.get('_msg_type') == rpm.RPCRequestMessage._msg_type
         fab.outs.append({'scope': self.bridge.scope, 'kind': self.bridge.kind,
                          'origin': origin_class(wire), 'fwd': fwd_class(wire),
-                         'hops': env[1], 'fan': fan})
+                         'hops': env[1], 'fan': fan,
+                         'ruid': str(wire.get('uid')) if isreq else 'none',
+                         'raddr': str(wire.get('addr')) if isreq else 'none'})
 
 
 class FakeSubscriber(object):
@@ -240,6 +243,9 @@ class FwdRig(object):
         global FABRIC
         self.tag, self.with_rpc = tag, with_rpc
         self.handles = {}                                # pilot id -> real Pilot (client side)
+        self.reqs     = {}                               # request uid -> address it names
+        self.served   = {}                               # side -> runs of its rpc handler
+        self.clock    = 0                                # virtual seconds spent in timed waits
         self.advances = []                               # bulks published through advance()
         self.updates  = {}                               # (side, uid, state) -> state updates seen
         self._sync_drain = True
@@ -338,7 +344,10 @@ class FwdRig(object):
         comp._cancel_lock  = mt.Lock()
         comp._cancel_list  = []
         # as agent_0 does for its pilot: handlers are addressed by the side
-        comp.register_rpc_handler('verif_echo', lambda *a, **k: [side] + list(a), rpc_addr=side)
+        def echo(*a, **k):
+            self.served[side] = self.served.get(side, 0) + 1
+            return [side] + list(a)
+        comp.register_rpc_handler('verif_echo', echo, rpc_addr=side)
         for k in self.kinds:
             b = self.local[side, k]
             comp._publishers[b.channel] = FakePublisher(b.channel, url=b.addr_pub)
@@ -468,19 +477,29 @@ class FwdRig(object):
         self.handles[pid] = h
         return h
 
-    def rpc_call(self, a, b, rng=None):
+    def rpc_call(self, a, b, rng=None, delay=0):
         '''the REAL blocking call: Pilot.rpc (client -> pilot) or BaseComponent.rpc
-           (any other pair).  Waiting on the result event delivers everything in
-           flight; no result at rest ends the call (the real code would wait on)'''
+           (any other pair).  The result event's wait(timeout) runs on a virtual
+           clock: the first `delay` waits time out with nothing delivered (a slow
+           pilot / proxy), the next one delivers everything in flight; no result
+           at rest ends the call (the real code would wait on).  b may name an
+           address nobody serves: the reply never comes'''
         rig = self
+        waits = [0]
 
         class DrainEvent(object):
             def __init__(self): self._f = False
             def set(self): self._f = True
             def is_set(self): return self._f
             def wait(self, timeout=None):
+                rig.clock += int(timeout or 0)
+                waits[0] += 1
+                if waits[0] <= delay:
+                    return self._f              # timed out: nothing moved meanwhile
                 rig.drain(rng)
                 if not self._f:
+                    if waits[0] <= delay + 2:
+                        return False            # two more periods, then give up
                     raise NoResult()
                 return True
 
@@ -489,6 +508,7 @@ class FwdRig(object):
             def __getattr__(self, k): return getattr(mt, k)
 
         self._sync_rng, self._sync_via = rng, 'rpc_call'
+        self._sync_drain = not delay            # delayed: what is published waits in the queues
         self.fab.sync = self
         try:
             with mock.patch.object(rp_comp, 'mt', MT()), mock.patch.object(rp_pilot, 'mt', MT()):
@@ -498,7 +518,7 @@ class FwdRig(object):
         except NoResult:
             return None
         finally:
-            self.fab.sync = None
+            self.fab.sync, self._sync_drain = None, True
 
     # ----------------------------------------------------------------------
     def _payload(self, gid, origin, fwd, via):
@@ -602,7 +622,9 @@ class FwdRig(object):
         o  = outs[0]
         ev = {'ev': 'Publish', 'side': side, 'ident': self.ident[side], 'kind': o['kind'],
               'id': gid, 'via': via, 'origin': o['origin'], 'fwd': o['fwd'], 'fan': o['fan'],
-              're': re}
+              're': re, 'ruid': o.get('ruid', 'none')}
+        if ev['ruid'] != 'none':
+            self.reqs[ev['ruid']] = o.get('raddr')
         if o['kind'] != kind or o['scope'] != 'local':
             raise RigError('ordinary publish went to %s/%s' % (o['scope'], o['kind']))
         self.pubrec[gid] = ev
@@ -661,6 +683,11 @@ class FwdRig(object):
     def quiet(self, drained=True):
         if drained:
             self.log_updates()
+            for side in self.sides:
+                reqs = len([1 for addr in self.reqs.values() if addr == side])
+                if reqs or self.served.get(side):
+                    self.events.append({'ev': 'Served', 'side': side, 'reqs': reqs,
+                                        'runs': self.served.get(side, 0)})
         ev = {'ev': 'Quiet', 'drained': bool(drained), 'left': self.fab.inflight()}
         self.events.append(ev)
         return ev
